@@ -297,7 +297,7 @@ def main():
     tp = f"{V}/THOROUGH.tsv"
     if os.path.exists(tp):
         out.append("\n### 9.7b Thorough tier, last run per property\n")
-        out.append("One thorough run per property at `VERIF_SEED=1` (`tools/run_all.sh thorough`, then re-runs of the checks whose harness or whose part of /repo changed afterwards). The commit is the /repo HEAD the run saw; later commits touch other packages than the ones that check exercises (actor supervision: 3317c9d, cluster: fad7336 and 6ee221e). Violations found by this tier are the entries of 9.3 (harness) and 9.6 (KF-C09-7, KF-C18-8) marked as found by the thorough tier; every row below is the run after the correction.\n")
+        out.append("One thorough run per property at `VERIF_SEED=1` (`tools/run_all.sh thorough`, then re-runs of the checks whose harness or whose part of /repo changed afterwards). The commit is the /repo HEAD the run saw; later commits touch other packages than the ones that check exercises (actor supervision: 3317c9d, cluster: fad7336 and 6ee221e). Violations found by this tier are the entries of 9.3 (harness) and 9.6 (KF-C09-7, KF-C18-8) marked as found by the thorough tier; every row below is the run after the correction. Further thorough runs on the final tree held as well and are not in the table: `VERIF_SEED=2` for C03, C05, C06, C08, C09 and C19, and `VERIF_SEED=2` and `3` for each window unit alone (`VERIF_ONLY_UNIT`).\n")
         out.append("| property | /repo commit | evaluations | distinct non-trivial | wall (s) | result |\n|---|---|---|---|---|---|")
         for l in open(tp).read().splitlines()[1:]:
             c = l.split("\t")
